@@ -467,6 +467,32 @@ func ruleNextBlock(c *Ctx, r *Rep, tier string) {
 		}
 		return "", false
 	}
+	// the expected base: what current.Base() is compared with
+	var want ssa.Value
+	for _, b := range fn.Blocks {
+		if i := ifOf(b); i != nil {
+			if bo, ok := i.Cond.(*ssa.BinOp); ok && (bo.Op == token.EQL || bo.Op == token.NEQ) {
+				switch {
+				case isInvokeOnField(insOf(bo.X), fCur, "Base"):
+					want = bo.Y
+				case isInvokeOnField(insOf(bo.Y), fCur, "Base"):
+					want = bo.X
+				}
+			}
+		}
+	}
+	// a read of exactly that member with the decompressor in hand (what Seek does
+	// on a miss) yields the wanted block by construction
+	w.Effect = func(ins ssa.Instruction) (string, bool) {
+		call, ok := ins.(*ssa.Call)
+		if !ok || want == nil {
+			return "", false
+		}
+		if g := staticCallee(&call.Call); g != nil && g.Name() == "nextBlockAt" && len(call.Call.Args) >= 2 && call.Call.Args[1] == want {
+			return "match", true
+		}
+		return "", false
+	}
 	var bad ssa.Instruction
 	for _, e := range w.Walk(fn, locOf(recv)) {
 		if _, isRet := e.At.(*ssa.Return); isRet && e.Counts["match"] == 0 {
